@@ -32,3 +32,14 @@ Definition eval_fs (fw fu : list N) (chs : list (option (list (N * bool)) * opti
   show_list show_call (rev (w_calls w)) ++ " | " ++
   (match w_watcher w with Some reg => show_kind (w_kind w) ++ show_list show_wp reg | None => "none" end) ++
   " | errors=" ++ show_nat (w_errors w).
+
+(* ---- Changeable: run a script in the modes translated from the source and show the invocations *)
+From WX Require Import Gen.Changeable_gen Fs.Changeable.
+Definition eval_changeable (l : list op) : string :=
+  match src_call, src_clone with
+  | Some cm, Some km =>
+      let o := exec cm km l init in
+      (match o with Done _ => "done" | Deadlock _ => "deadlock" | BadHandle => "badhandle" end) ++ " " ++
+      show_list (fun hf => show_N (fst hf) ++ ":" ++ show_N (snd hf)) (invocations o)
+  | _, _ => "untranslated"
+  end.
